@@ -1,6 +1,6 @@
 (** Classification of C03/C09 edit scenarios (harness/props/c03.go). *)
 From Coq Require Import ZArith List Bool Strings.Byte.
-From YV Require Import Base.Verdict Val.Model Tree.Schema Tree.Editor Tree.Merge.
+From YV Require Import Base.Verdict Val.Model Tree.Schema Tree.Editor Tree.Merge Tree.ChoiceInv.
 Import ListNotations.
 
 Inductive obs :=
@@ -40,8 +40,14 @@ Definition classify (c : case) : verdict :=
       let dom := forallb choice_free kids in
       let m := edit_content false kids src tgt st in
       let corr := res_eqb m o in
-      (* outside the choice-free domain the C03 spec makes no claim; C09 has its own oracle *)
-      let spec := if dom then res_eqb (spec_content kids st src tgt) o else true in
+      (* outside the choice-free domain the C03 oracle makes no claim; C09's applies: a conforming
+         source and target (one case per choice) leave a conforming target *)
+      let spec := if dom then res_eqb (spec_content kids st src tgt) o
+                  else match o with
+                       | ObsOk c => negb (inv_content kids src && inv_content kids tgt) || inv_content kids c
+                       | ObsErr _ => true
+                       | ObsPanic => false
+                       end in
       classify_gen corr spec None
   | CEditList lst st src tgt o =>
       match lst with
